@@ -9,21 +9,7 @@ import (
 )
 
 var Registry = map[string]func(){
-	"Power": Power,
-	"Root":  Root,
-}
-
-// Power: for every 2 <= n <= 2^32 the split point is a power of two, strictly below n, and
-// the largest such (2*p >= n).
-func Power() {
-	n := sym.Int("n")
-	sym.Assume(n >= 2 && n <= 1<<32)
-	p := byron.VerifLargestPowerOfTwoBelow(n)
-	sym.ObsInt("p", p)
-	sym.Reach("decided")
-	sym.Assert(p >= 1 && p&(p-1) == 0, "split point is a power of two")
-	sym.Assert(p < n, "split point is strictly below the item count")
-	sym.Assert(2*p >= n, "split point is the largest power of two below the item count")
+	"Root": Root,
 }
 
 // reference construction (independent of the implementation): leaves tagged 0, branches
